@@ -49,6 +49,11 @@ def gen_cases(seed, tier):
     depth = 2 if tier == "quick" else 3
     cases = []
     while len(cases) < n:
+        if len(cases) % 9 == 4:
+            dom = gen_geo.flip_parallelogram(rng)
+            cases.append({"spec": dom["spec"], "rows": dom["rows"], "info": dom["info"], "k": dom["k"],
+                          "seed": int(rng.integers(0, 2 ** 31))})
+            continue
         dom = gen_geo.gen_domain(rng, max_depth=int(rng.integers(0, depth + 1)), allow=("bool", "bool", "prim"),
                                  k=int(rng.choice([0, 0, 1, 2, 3, 5])))
         spec = copy.deepcopy(dom["spec"])
